@@ -183,6 +183,7 @@ func build(id string, r run, work string) (bin string, skipped []string) {
 		if r.Instrument != "" {
 			dir := filepath.Join(work, "instr-"+r.Name)
 			os.RemoveAll(dir)
+			instr.RewriteLocks = !skip["lock-rewriting"]
 			files, err := instr.Instrument(repo, dir, r.Instrument, filepath.Join(verif, "instr", "verifrt"))
 			if err != nil {
 				fatal("instrumenter: %v", err)
@@ -272,6 +273,11 @@ func build(id string, r run, work string) (bin string, skipped []string) {
 			skip["carry-instrumentation"] = true
 			dropped = true
 			fmt.Fprintln(os.Stderr, "vdriver: the carry-instrumented fiat sources do not build against the current tree; dropped")
+		}
+		if !dropped && r.Instrument == "sched" && !skip["lock-rewriting"] && strings.Contains(out.String(), "TryLock") || !dropped && r.Instrument == "sched" && !skip["lock-rewriting"] && strings.Contains(out.String(), "TryRLock") {
+			skip["lock-rewriting"] = true
+			dropped = true
+			fmt.Fprintln(os.Stderr, "vdriver: the Lock -> TryLock rewriting of the scheduler build does not compile against the current tree; dropped")
 		}
 		if !dropped {
 			fmt.Fprintln(os.Stderr, out.String())
